@@ -581,11 +581,13 @@ def sortkey_rule(rep, A):
              None if okl and okr else 'the predicate must be  key < visited.finish()  with key captured from plan')
     # in plan: the key is finish() of the timer being planned; the search runs from begin() to end() of timer_list
     p = A.plan
-    fins = [i for i in p.calls() if i.callee == A.finish.name]
-    ok = len(fins) == 1 and fins[0].ops[0].k == 'arg' and fins[0].ops[0].argno == 1
+    # finish() of the planned timer (other finish() calls, e.g. on the last pending timer for an append fast path, are
+    # not this rule's business: where the timer ends up is decided by the R-PLAN scenarios)
+    fins = [i for i in p.calls() if i.callee == A.finish.name and i.ops[0].k == 'arg' and i.ops[0].argno == 1]
+    ok = len(fins) >= 1
     if ok:
-        st = [u for u in p.uses.get(('i', fins[0].id), []) if u.op == 'store']
-        ok = len(st) == 1 and p.inst_of(st[0].ops[1]) is not None and p.inst_of(st[0].ops[1]).op == 'alloca'
+        st = [u for f_ in fins for u in p.uses.get(('i', f_.id), []) if u.op == 'store']
+        ok = any(p.inst_of(x.ops[1]) is not None and p.inst_of(x.ops[1]).op == 'alloca' for x in st)
     rep.inst(R, A.nm(p), 'sort-key-is-finish()-of-the-planned-timer', ok, fins[0].where() if fins else where,
              None if ok else 'plan must order by tim.finish() of its own argument')
     ok = True
@@ -1032,6 +1034,13 @@ def fin(t):
     return '%s.start + %s.interval' % (t, t)
 
 
+def sorted_pre(names):
+    """class invariant of the manager: the pending list is sorted by deadline (plan is the only function that links a
+    timer and keeps it so - R-WHOLINKS, R-PLAN); an implementation may rely on it (e.g. an append fast path that
+    compares with the last element only)"""
+    return ['%s <= %s' % (fin(a), fin(b)) for a, b in zip(names, names[1:])]
+
+
 def plan_scenarios(rep, A, maxn):
     S = Scenarios(rep, A)
     R = 'R-PLAN'
@@ -1040,7 +1049,7 @@ def plan_scenarios(rep, A, maxn):
     for n in range(0, maxn + 1):
         oth = names[:n]
         for k in range(n + 1):
-            pre = S.nowrap(oth + ['x'], 1, clock=False)
+            pre = S.nowrap(oth + ['x'], 1, clock=False) + sorted_pre(oth)
             pre += ['%s <= %s' % (fin(c), fin('x')) for c in oth[:k]]
             if k < n:
                 pre.append('%s < %s' % (fin('x'), fin(oth[k])))
@@ -1053,7 +1062,7 @@ def plan_scenarios(rep, A, maxn):
         for j in range(n + 1):
             before = oth[:j] + ['x'] + oth[j:]
             for k in range(n + 1):
-                pre = S.nowrap(oth + ['x'], 1, clock=False)
+                pre = S.nowrap(oth + ['x'], 1, clock=False) + sorted_pre(oth)
                 pre += ['%s <= %s' % (fin(c), fin('x')) for c in oth[:k]]
                 if k < n:
                     pre.append('%s < %s' % (fin('x'), fin(oth[k])))
